@@ -279,6 +279,9 @@ func canonicalize(cfg packages.Config, pkgs []*packages.Package) (map[string][]b
 		return overlay, lg
 	}
 	skipped := map[string]bool{}
+	removed := map[string]bool{}
+	var lastRemoval map[string][]byte
+	noRemove := false
 	var lastFlat struct {
 		file    string
 		content []byte
@@ -301,6 +304,17 @@ func canonicalize(cfg packages.Config, pkgs []*packages.Package) (map[string][]b
 				bad = true
 			}
 		}
+		if bad && lastRemoval != nil {
+			// removing a dead helper broke the build (e.g. an import became unused): keep it
+			lg.Failed = lg.Failed[:len(lg.Failed)-1]
+			for k, v := range lastRemoval {
+				overlay[k] = v
+			}
+			lastRemoval = nil
+			noRemove = true
+			continue
+		}
+		lastRemoval = nil
 		if bad && lastFlat.file != "" {
 			// the flattened form was rejected: keep the literal the inliner produced
 			lg.Failed = lg.Failed[:len(lg.Failed)-1]
@@ -387,6 +401,49 @@ func canonicalize(cfg packages.Config, pkgs []*packages.Package) (map[string][]b
 				}
 			}
 			if theCall == nil {
+				// helpers that are no longer referenced anywhere are dead code now: drop their declarations, so that
+				// who-may-write rules do not see a second copy of the statements that were inlined
+				used := map[types.Object]bool{}
+				for _, o := range p.TypesInfo.Uses {
+					if fo, ok := o.(*types.Func); ok {
+						used[fo.Origin()] = true
+					}
+				}
+				type cut struct{ from, to int }
+				cuts := map[string][]cut{}
+				for obj, fd := range newObj {
+					if used[obj] || removed[obj.FullName()] || noRemove {
+						continue
+					}
+					tf := p.Fset.File(fd.Pos())
+					from := fd.Pos()
+					if fd.Doc != nil {
+						from = fd.Doc.Pos()
+					}
+					cuts[tf.Name()] = append(cuts[tf.Name()], cut{tf.Offset(from), tf.Offset(fd.End())})
+					removed[obj.FullName()] = true
+					lg.Inlined = append(lg.Inlined, "declaration of "+obj.Name()+" removed (no remaining reference)")
+				}
+				if len(cuts) > 0 {
+					lastRemoval = map[string][]byte{}
+				}
+				for name, cs := range cuts {
+					src, ok := overlay[name]
+					if !ok {
+						src, _ = os.ReadFile(name)
+					}
+					lastRemoval[name] = src
+					sort.Slice(cs, func(i, j int) bool { return cs[i].from > cs[j].from })
+					out := append([]byte{}, src...)
+					for _, c := range cs {
+						out = append(out[:c.from], out[c.to:]...)
+					}
+					overlay[name] = out
+					done = false
+				}
+				if len(cuts) > 0 {
+					break
+				}
 				continue
 			}
 			done = false
